@@ -683,4 +683,52 @@ theorem deliverAll_inside (ws : List Msg) {c : Cl} {m s : Nat} {r : Ratchet} {A 
       rw [i8 k hk.2, hrecs]
       exact tlookup_tinsert_ne hk.1 _ _
 
+/-- the generations of the deliveries that returned the message -/
+def appGens (c : Cl) : List Msg → List Nat
+  | [] => []
+  | w :: ws => if (deliver c w).2 = .app w.mid then w.gen :: appGens (deliver c w).1 ws else appGens (deliver c w).1 ws
+
+theorem chain_recordFailure {c : Cl} {m s : Nat} {r : Ratchet} (ch : Chain c m s r) (n : Nat) (e : Option Nat) :
+    Chain (recordFailure c n e) m s r :=
+  ⟨ch.notOwn, ch.outer, ch.tree⟩
+
+theorem appGens_nodup (ws : List Msg) {c : Cl} {m s : Nat} {r : Ratchet} {A : List Nat}
+    (ch : Chain c m s r) (inv : Inv c.cfg.T r A) (same : ∀ w ∈ ws, w.sender = s ∧ w.epoch = m) :
+    (appGens c ws).Nodup ∧ ∀ g ∈ appGens c ws, g ∉ A := by
+  induction ws generalizing c r A with
+  | nil => simp [appGens]
+  | cons w ws ih =>
+    obtain ⟨hs, hm⟩ := same w (by simp)
+    have same' : ∀ x ∈ ws, x.sender = s ∧ x.epoch = m := fun x hx => same x (by simp [hx])
+    by_cases hb : ∀ rc, tlookup w.n c.recs = some rc → rc.state ≠ 3
+    · by_cases hacc : (recv c.cfg.T c.cfg.F r w.gen).2 = .accepted
+      · obtain ⟨c1, e1, ch1, hcfg, _, _, _, _, _⟩ := step1_accept ch w hs hm hacc
+        have ed : deliver c w = (c1, .app w.mid) := by rw [deliver_eq_step1 hb, e1]
+        obtain ⟨hg, inv1⟩ := recv_accepted_inv inv hacc
+        obtain ⟨nd, nA⟩ := ih ch1 (by rw [hcfg]; exact inv1) same'
+        simp only [appGens, ed, if_true]
+        refine ⟨List.nodup_cons.mpr ⟨fun hmem => nA _ hmem (by simp), nd⟩, ?_⟩
+        intro g hgm
+        simp only [List.mem_cons] at hgm
+        rcases hgm with rfl | hgm
+        · exact hg
+        · exact fun ha => nA g hgm (by simp [ha])
+      · have ed : deliver c w = (recordFailure c w.n (some c.st.epoch), .unprocessable) := by
+          rw [deliver_eq_step1 hb, step1_refuse ch w hs hm hacc]
+        simp only [appGens, ed]
+        rw [if_neg (by simp)]
+        exact ih (chain_recordFailure ch _ _) inv same'
+    · have ed : deliver c w = (c, .unprocessable) := by
+        unfold deliver
+        split
+        · rename_i rc hrc
+          by_cases h3 : rc.state = 3
+          · rw [if_pos h3]
+          · exact absurd (fun rc' hrc' => by rw [hrc] at hrc'; cases hrc'; exact h3) hb
+        · rename_i hn
+          exact absurd (fun rc' hrc' => by rw [hn] at hrc'; cases hrc') hb
+      simp only [appGens, ed]
+      rw [if_neg (by simp)]
+      exact ih ch inv same'
+
 end MdkVerif.Ratchet
